@@ -38,6 +38,38 @@ func c10Genesis(w *core.WorkerCtx) {
 		b.VerifClose()
 		cancel()
 	}
+	// (a') the own address in other spellings (surrounding blanks, line ends, a NUL): whatever CreateGenesis answers,
+	// the genesis vertex it seals must not name the issuing wallet as receiver, and a peer syncing it must not either
+	for i, dress := range []func(string) string{
+		func(a string) string { return a + "\n" },
+		func(a string) string { return " " + a },
+		func(a string) string { return a + " " },
+		func(a string) string { return "\t" + a + "\r\n" },
+		func(a string) string { return a + "\x00" },
+	} {
+		a := ledger.NewActor("g")
+		ctx, cancel := context.WithCancel(context.Background())
+		b, err := accountant.NewAccountingBook(ctx, accountant.Config{Truncate: 1 << 50}, wallet.NewVerifier(), &a.W, ledger.NoLog{})
+		if err != nil {
+			cancel()
+			continue
+		}
+		gv, gerr := b.CreateGenesis("GENESIS", spice.Melange{Currency: 5}, []byte{}, dress(a.Addr))
+		r.Eval(1)
+		r.Nontriv(fmt.Sprintf("genesis/self-receiver-spelled-differently/%d/accepted=%v", i, gerr == nil))
+		if gerr == nil && gv.Transaction.ReceiverAddress == gv.Transaction.IssuerAddress {
+			r.Violate("C10", "genesis-names-own-issuer/respelled", fmt.Sprintf("CreateGenesis sealed a genesis whose receiver is its issuer (receiver given as the own address in spelling %d)", i), nil)
+		}
+		if s, _ := ledger.TakeSnap(b); s != nil {
+			for _, l := range s.Live {
+				if l.V.Transaction.ReceiverAddress == l.V.Transaction.IssuerAddress && l.V.Transaction.IssuerAddress == a.Addr {
+					r.Violate("C10", "genesis-names-own-issuer/respelled", fmt.Sprintf("the ledger holds a genesis vertex whose receiver is its issuer (spelling %d)", i), nil)
+				}
+			}
+		}
+		b.VerifClose()
+		cancel()
+	}
 	// (b) ledgers obtained by syncing: streams that contain a forbidden vertex must not yield a loaded node holding it
 	rng := core.Rand(w.Seed, "C10g", w.Batch)
 	world := ledger.NewWorld(rng, r, []string{"C10"}, allSnapOracles, "c10 sync streams with forbidden vertices")
